@@ -51,6 +51,7 @@ type G struct {
 	site  string // last scheduling site
 	prio  int64  // PCT priority
 	Op    string // harness annotation: the client call in progress
+	last  string // last instrumented source site passed (reports)
 }
 
 // Strategy selects how the scheduler picks.
@@ -361,6 +362,9 @@ func (s *Sched) point(g *G, site string) {
 	if s.atomic > 0 {
 		return
 	}
+	if len(site) > 0 && site[0] != '~' {
+		g.last = site
+	}
 	s.steps++
 	if PointLog != nil {
 		*PointLog = append(*PointLog, g.Name+"@"+site)
@@ -453,7 +457,7 @@ func Post(g *G) {
 func (s *Sched) wait(g *G, site string) {
 	s.mu.Lock()
 	g.state = stWaiting
-	g.site = site
+	g.site = site + "<" + g.last
 	s.mu.Unlock()
 	<-g.wake
 }
